@@ -663,6 +663,29 @@ func (s *Sim) RunCLI(cmd string, key types.NamespacedName) *Task {
 	return t
 }
 
+// RunCLIWhileParked runs a command to completion while the other in-flight tasks stay parked
+// where they are (the command lands in the middle of their reconcile).
+func (s *Sim) RunCLIWhileParked(cmd string, key types.NamespacedName) *Task {
+	t := s.StartCLI(cmd, key)
+	for i := 0; i < 1000 && !t.Done; i++ {
+		synctest.Wait()
+		var mine *Call
+		for _, c := range s.canonicalPending() {
+			if c.Task == t {
+				mine = c
+				break
+			}
+		}
+		if mine == nil {
+			break
+		}
+		s.grant(mine, "")
+	}
+	synctest.Wait()
+	s.collectFinished()
+	return t
+}
+
 func (s *Sim) record(a *Action, f string) {
 	s.Trace = append(s.Trace, Decision{A: a.A, K: a.K, F: f})
 }
